@@ -136,6 +136,19 @@ func runPure(args []string) {
 			if r.Intn(25) == 0 { // beyond the proved domain: overflow frontier
 				p = randUpTo(200 + r.Intn(56))
 				b = randUpTo(100 + r.Intn(156))
+			} else if r.Intn(4) == 0 {
+				// remainder-directed: p*b = k*10^9 + rem for a chosen small / large / middle remainder
+				// (p coprime to 10, b = rem * p^-1 mod 10^9 + k*10^9)
+				giga := big.NewInt(1000000000)
+				p = new(big.Int).Add(new(big.Int).Mul(randUpTo(1+r.Intn(60)), big.NewInt(10)), big.NewInt([]int64{1, 3, 7, 9}[r.Intn(4)]))
+				rems := []int64{1, 2, 3, 5, 9, 10, 11, 99, 499999999, 500000000, 500000001, 999999990, 999999998, 999999999}
+				rem := big.NewInt(rems[r.Intn(len(rems))])
+				if r.Intn(3) == 0 {
+					rem = big.NewInt(1 + r.Int63n(999999999))
+				}
+				inv := new(big.Int).ModInverse(new(big.Int).Mod(p, giga), giga)
+				b = new(big.Int).Mod(new(big.Int).Mul(rem, inv), giga)
+				b.Add(b, new(big.Int).Mul(randUpTo(r.Intn(40)), giga))
 			}
 			res := safe(func() string { return hubutils.AmountForBytes(sdkmath.NewIntFromBigInt(p), sdkmath.NewIntFromBigInt(b)).String() })
 			fmt.Fprintf(w, "afb %s %s = %s\n", p, b, res)
@@ -155,6 +168,18 @@ func runPure(args []string) {
 			if r.Intn(4) == 0 && a.Sign() > 0 {
 				// force an exact half: a*s = k*10^18 + 5*10^17 is not generally reachable; use a even/odd with s = 0.5
 				s = new(big.Int).Div(big18, big.NewInt(2))
+			} else if r.Intn(4) == 0 {
+				// remainder-directed: a*s = k*10^18 + rem around the half-way point and the ends (s coprime to 10)
+				s = new(big.Int).Add(new(big.Int).Mul(randUpTo(1+r.Intn(55)), big.NewInt(10)), big.NewInt([]int64{1, 3, 7, 9}[r.Intn(4)]))
+				s.Mod(s, big18)
+				half := new(big.Int).Div(big18, big.NewInt(2))
+				cands := []*big.Int{big.NewInt(1), big.NewInt(2), new(big.Int).Sub(half, big.NewInt(1)), half, new(big.Int).Add(half, big.NewInt(1)),
+					new(big.Int).Sub(big18, big.NewInt(1)), new(big.Int).Sub(big18, big.NewInt(2))}
+				rem := cands[r.Intn(len(cands))]
+				if inv := new(big.Int).ModInverse(s, big18); inv != nil {
+					a = new(big.Int).Mod(new(big.Int).Mul(rem, inv), big18)
+					a.Add(a, new(big.Int).Mul(randUpTo(r.Intn(60)), big18))
+				}
 			}
 			res := safe(func() string {
 				return hubutils.GetProportionOfCoin(sdk.NewCoin("denoma", sdkmath.NewIntFromBigInt(a)), sdkmath.LegacyNewDecFromBigIntWithPrec(s, 18)).Amount.String()
